@@ -2,7 +2,6 @@ package main
 
 import "sort"
 
-func genReader(c *Ctx) string  { return genHeader }
 
 func genJson(c *Ctx) string    { return genHeader }
 func genServer(c *Ctx) string  { return genHeader }
